@@ -27,6 +27,7 @@ RULE = (
     "repeated calls identical; plus parameter sequences (transform/score, set_params of a threshold / noise map / Config field, "
     "transform/score, ...) after each of which the estimator must equal a freshly created one with the current parameters. One evaluation = one adapter call. distinct = (model, threshold, matrix); non-trivial = "
     "matrices with >= 2 rows or models with >= 2 sensors."
+    " One further model has a sensor whose predicted readings are negatively correlated (x - y, y)."
 )
 ASSUMPTIONS = ["finite data matrices of matching width with dyadic entries", "reference comparison tolerance 1e-9, hand-run comparison 1e-12"]
 SHAPES = [(1,), (1, 1), (2,), (2, 1), (1, 1, 1)]
